@@ -220,3 +220,11 @@ Print Assumptions estimate_tuplet_eps_refuted.
 Theorem tables_consistent : table_consistent = true /\ straight_consistent = true.
 Proof. exact (conj table_consistent_ok straight_consistent_ok). Qed.
 Print Assumptions tables_consistent.
+
+(* the judgement of a sweep row (Model.C11.classify_row: 0 none, 1 converts back exactly, 2/3 the
+   known inexact-within-eps hits, 4 violation) depends on d/div and the answer only; the harness
+   therefore sends a row (k*d, k*div) whose answer equals that of (d, div) as a skip marker *)
+Theorem sweep_row_judgement_scale_invariant : forall k d div obs,
+  0 < k -> 0 < div -> classify_row (k * d) (k * div) obs = classify_row d div obs.
+Proof. exact classify_row_scale_lemma. Qed.
+Print Assumptions sweep_row_judgement_scale_invariant.
